@@ -132,4 +132,12 @@ PROPS["C19"] = {
     "class_of": lambda c, r: "%s/%d/%d" % (r["model"].get("status"), len(c["in"]["txhashes"]), len(c["in"]["commits"] or [])),
 }
 
+PROPS["C15"] = {
+    "harness": {"kind": "cmd", "cmd": "c15"},
+    "level_text": "Theorems by induction over arbitrary event histories (connected / add / disconnected / gossip, any roles incl. bootnode and unknown, failing lookups, lying gossip records): a peer of role provider or bidder is reported iff the latest event about that (address, role) added it (refinement of the two maps to the history-defined view); on connect the newcomer is sent exactly the other known providers whose lookup succeeded - never its own record, never a non-provider - and nothing if there is none; iff the newcomer is a provider (whose own lookup succeeds) every known bidder is sent exactly its record; gossip dials exactly the listed addresses not in the view and adds exactly the peers the handshakes proved (address and role as returned by Connect). Tied to the real Topology wired to the real Discovery (as announcer and as gossip handler) over a scripted p2p service; sets compared as sorted multisets after every event.",
+    "level_note": "Trusted: Lean kernel; harness (dials are gated so that every entry of a gossip list is checked against the view before any dial completes - the schedule the model fixes; lists are kept below the 10-worker semaphore); Go map iteration order is immaterial (outputs sorted).",
+    "nontrivial_rule": "distinct (tag, model step list) pairs; an event list is non-trivial if it contains a connect of a provider or a gossip list",
+    "assumptions": ["Notifier callbacks are delivered sequentially (libp2p service calls Connected/Disconnected one at a time)"],
+}
+
 NOT_CLAIMED = {}
